@@ -306,6 +306,17 @@ def units(tier, seed):
         chunk = 25 if n <= 5 else 12
         for i in range(0, len(trees), chunk):
             u.append((cfg, dict(part="trees", n=n, trees=trees[i : i + chunk])))
+    # rings: every insertion order x orientation of the links of the n-cycle (first link fixed by the dihedral
+    # symmetry of the ring, names play no role in the algorithm); long cycles are where a table update that stops
+    # early leaves a longer way round
+    for n in range(3, (7 if tier == "quick" else 8) + 1):
+        ring = [(i, (i + 1) % n) for i in range(n)]
+        if n <= 6:
+            u.append((cfg, dict(part="ring", n=n, edges=ring, prefix=[[0, 0]])))
+        else:
+            for i in range(1, n):
+                for o in (0, 1):
+                    u.append((cfg, dict(part="ring", n=n, edges=ring, prefix=[[0, 0], [i, o]])))
     # general graphs
     graph_bounds = [(4, 6), (5, 6), (6, 6)] if tier == "quick" else [(4, 6), (5, 8), (6, 7)]
     for n, m in graph_bounds:
@@ -341,6 +352,8 @@ def setup(config):
 def run_unit(p, t):
     if p["part"] == "tree":
         run_tree(p["n"], [tuple(e) for e in p["edges"]], p["first"], t, "tree-class")
+    elif p["part"] == "ring":
+        run_tree(p["n"], [tuple(e) for e in p["edges"]], p["prefix"], t, "ring")
     elif p["part"] == "trees":
         for edges in p["trees"]:
             run_tree(p["n"], [tuple(e) for e in edges], None, t, "tree-labelled")
@@ -373,14 +386,16 @@ def run_tree(n, edges, first, t, kind):
         for i in remaining:
             a, b = edges[i]
             rest = [j for j in remaining if j != i]
-            if first is not None and not hist:
-                if i != first[0]:
+            if len(hist) < len(prefix):
+                if i != prefix[len(hist)][0]:
                     continue
-                rec([(a, b) if first[1] == 0 else (b, a)], rest)
+                rec(hist + [(a, b) if prefix[len(hist)][1] == 0 else (b, a)], rest)
                 continue
             rec(hist + [(a, b)], rest)
             rec(hist + [(b, a)], rest)
 
+    # `first` is None, one [edge index, orientation] or a list of them (forced beginning of the history)
+    prefix = [] if first is None else ([first] if not isinstance(first[0], (list, tuple)) else list(first))
     rec([], list(range(m)))
 
 
@@ -439,6 +454,10 @@ REG_OPS = ["sta1", "sta2", "staE", "orb0", "orbQ", "orbT", "moon", "sun", "orbM"
 REG_NEEDS = {"orbM": "moon", "orbN": "orb0", "lofM": "moon", "orb0b": "orb0", "sta1b": "sta1"}
 STATIONS = {"Sta1": (43.428889, 1.497778, 178.0), "Sta2": (-35.4, 148.98, 690.0), "StaE": (10.0, -60.0, 50.0),
             "Sta1@b": (-22.5, 114.1, 35.0), "StaP": (64.8, -147.7, 135.0), "StaT": (-0.6, 73.1, 2.0)}
+
+
+# local orbital frames: orientation and parent frame of their definition
+LOF_DEF = {"OrbQ": ("QSW", "EME2000"), "OrbT": ("TNW", "EME2000"), "SvQ": ("QSW", "EME2000"), "LofM": ("QSW", "Moon")}
 
 
 def _enabled(op, hist):
@@ -550,7 +569,11 @@ def _apply(op):
         _REG["ref_of"]["OrbQ"] = _REG["ref_orb"]()
         return orbit2frame("OrbQ", _REG["ref_of"]["OrbQ"], "QSW").name
     if op == "orbT":
-        _REG["ref_of"]["OrbT"] = _REG["ref_orb"]()
+        # an orbit of its own: two local orbital frames attached to different orbits and used at the same date must
+        # each keep their own axes
+        from beyond.orbits import Orbit
+
+        _REG["ref_of"]["OrbT"] = Orbit([7400e3, 0.03, 1.1, 4.0, 2.5, 5.2], _REG["date"], "keplerian", "EME2000", "Kepler")
         return orbit2frame("OrbT", _REG["ref_of"]["OrbT"], "TNW").name
     if op == "moon":
         return solarsystem.get_frame("Moon").name
@@ -653,6 +676,34 @@ def check_registry(hist, t):
                        case, 0.0, z.tolist(), f"{a}: reference object at {z[:3]} in its own frame after {hist}")
         except Exception as e:
             t.fail("registry/origin-raises/" + _kind(a), "every pair of connected frames is convertible", case, "conversion", repr(e), a)
+    # (4) the orientation link of a local orbital frame: the probe's position in the frame is its offset from the
+    # reference object projected on the textbook QSW / TNW triad of THAT frame's own reference state in the parent
+    # frame; examined in registration order and then in reverse order (conversions at one date, one frame after the
+    # other: the answer never depends on which frame was used before)
+    lofs = [a for a in new if a in LOF_DEF and a in R["ref_of"]]
+    for a in lofs + lofs[::-1]:
+        orient_, par = LOF_DEF[a]
+        try:
+            got = np.array(probe.copy(frame=a), dtype=float)[:3]
+            o = R["ref_of"][a]
+            rv = np.array(o.copy(form="cartesian").copy(frame=par), dtype=float)
+            rel = np.array(probe.copy(frame=par), dtype=float)[:3] - rv[:3]
+            t.trans(3)
+            r, v = rv[:3], rv[3:]
+            w = np.cross(r, v)
+            w /= np.linalg.norm(w)
+            if orient_ == "QSW":
+                x = r / np.linalg.norm(r)
+            else:
+                x = v / np.linalg.norm(v)
+            y = np.cross(w, x)
+            exp = np.array([rel @ x, rel @ y, rel @ w])
+            err = float(np.linalg.norm(got - exp)) / max(1.0, float(np.linalg.norm(rel)))
+            if not t.margin("registry local-orbital axes, |dr| / |r|", err, 1e-9):
+                t.fail("registry/axes/" + _kind(a), "a local orbital frame is linked to the axes of its own reference orbit",
+                       case, exp.tolist(), got.tolist(), f"{a}: probe position {err:.3e} (relative) off the {orient_} triad of its reference after {hist}")
+        except Exception as e:
+            t.fail("registry/axes-raises/" + _kind(a), "every pair of connected frames is convertible", case, "conversion", repr(e), a)
     # the objects handed to orbit2frame are the user's: conversions never modify them
     for nm, snap in snaps.items():
         o = R["ref_of"][nm]
